@@ -764,8 +764,12 @@ func (x *runner) reloadCase(seed uint64) {
 		good := fmt.Sprintf("route: {receiver: cfg-%d}\nreceivers: [{name: cfg-%d}]\n", id, id)
 		kind := "good"
 		switch k := r.Intn(10); {
-		case k < 5:
+		case k < 4:
 			os.WriteFile(path, []byte(good), 0o644)
+		case k == 4:
+			// a null slack item completed by the global block: valid; LoadFile walks every item (resolveFilepaths)
+			x.run.Count("reload_step", "good-with-null-slack-item")
+			os.WriteFile(path, []byte(fmt.Sprintf("global: {slack_api_url: 'https://h.example/x'}\nroute: {receiver: cfg-%d}\nreceivers: [{name: cfg-%d, slack_configs: [null], opsgenie_configs: [{api_key: k}, null]}]\n", id, id)), 0o644)
 		case k == 5:
 			kind = "missing-file"
 			os.Remove(path)
@@ -779,8 +783,8 @@ func (x *runner) reloadCase(seed uint64) {
 			kind = "null-route-item"
 			os.WriteFile(path, []byte(fmt.Sprintf("route: {receiver: cfg-%d, routes: [null]}\nreceivers: [{name: cfg-%d}]\n", id, id)), 0o644)
 		default:
-			kind = "null-slack-item"
-			os.WriteFile(path, []byte(fmt.Sprintf("global: {slack_api_url: 'https://h.example/x'}\nroute: {receiver: cfg-%d}\nreceivers: [{name: cfg-%d, slack_configs: [null]}]\n", id, id)), 0o644)
+			kind = "null-webhook-item"
+			os.WriteFile(path, []byte(fmt.Sprintf("route: {receiver: cfg-%d}\nreceivers: [{name: cfg-%d, webhook_configs: [null]}]\n", id, id)), 0o644)
 		}
 		before := append([]int{}, live...)
 		var rerr error
@@ -1001,7 +1005,7 @@ func TestCheck(t *testing.T) {
 			runCase(c)
 		}
 		r := vh.NewRand(env.Seed)
-		for i, n := 0, env.N(1400, 12); i < n; i++ {
+		for i, n := 0, env.N(1200, 12); i < n; i++ {
 			x.loadCase(r.U64())
 		}
 		for i, n := 0, env.N(300, 12); i < n; i++ {
@@ -1010,7 +1014,7 @@ func TestCheck(t *testing.T) {
 		for i, n := 0, env.N(150, 10); i < n; i++ {
 			x.reloadCase(r.U64())
 		}
-		x.malformedStream(r.Fork(), env.N(3000, 10))
+		x.malformedStream(r.Fork(), env.N(2500, 10))
 		// which secret-typed field paths were actually set at least once
 		total := secretTypePaths(reflect.TypeOf(config.Config{}), "", 0, map[reflect.Type]int{})
 		covered := 0
